@@ -38,6 +38,11 @@ pub struct Workload {
     pub sched: Sched,
     pub sched_seed: u64,
     pub schedules: u16,
+    /// requests of another stream (other source network) handled one after the other *before* the
+    /// threads start: the table then holds a used, possibly saturated bucket of that stream, which the
+    /// threads' stream takes over when the two collide (certain with a table of one bucket)
+    #[serde(default)]
+    pub prelude: u8,
 }
 
 pub fn workload(schedules: u16) -> impl Strategy<Value = Workload> {
@@ -51,8 +56,9 @@ pub fn workload(schedules: u16) -> impl Strategy<Value = Workload> {
         prop_oneof![3 => Just(0u8), 1 => 1u8..=3],
         prop_oneof![3 => Just(Sched::Random), 1 => (1u8..5).prop_map(Sched::Pct)],
         any::<u64>(),
+        prop_oneof![2 => Just(0u8), 1 => 1u8..=3, 2 => 6u8..=8],
     )
-        .prop_map(move |(threads, rate, window, slip, size, category, other_stream, sched, sched_seed)| Workload {
+        .prop_map(move |(threads, rate, window, slip, size, category, other_stream, sched, sched_seed, prelude)| Workload {
             threads,
             rate,
             window,
@@ -63,6 +69,7 @@ pub fn workload(schedules: u16) -> impl Strategy<Value = Workload> {
             sched,
             sched_seed,
             schedules,
+            prelude,
         })
 }
 
@@ -126,6 +133,13 @@ fn execution(w: &Workload, cat: &Arc<Cat>, agg: &Arc<Mutex<Agg>>) {
     let inside = Arc::new(AtomicU64::new(0));
     let overlapped = Arc::new(AtomicU64::new(0));
 
+    // the prelude: another network's stream, sequentially, finished before any thread starts
+    {
+        let mut buf = vec![0u8; 1232];
+        for _ in 0..w.prelude {
+            let _ = server.handle_message(&request, ReceivedInfo::new(IpAddr::V4(Ipv4Addr::new(192, 0, 2, 77)), Transport::Udp), &mut buf);
+        }
+    }
     let mut plan: Vec<(u8, u8)> = w.threads.iter().map(|n| (0u8, *n)).collect();
     if w.other_stream > 0 {
         plan.push((1, w.other_stream));
@@ -256,6 +270,9 @@ pub fn oracle(w: &Workload, st: &mut Stats) -> Verdict {
         1 => "workloads-nxdomain-stream",
         _ => "workloads-error-stream",
     });
+    if w.prelude as u32 >= w.rate * w.window {
+        st.class("workloads-after-a-saturated-stream-of-another-network");
+    }
     if w.other_stream > 0 {
         st.class("workloads-with-a-second-stream");
     }
